@@ -179,6 +179,7 @@ def _fold_integrate(f):
     def labels(v):
         return [getattr(x, "label", None) for x in v] if isinstance(v, (list, tuple)) else None
 
+    undecided = False
     for dim in (1, 2, 3):
         for kind in ("array", "image"):
             def run(decide, dim=dim, kind=kind):
@@ -230,8 +231,8 @@ def _fold_integrate(f):
                     return (False, f"{where}: the integral uses the cached voxel volume of an earlier call: {t[:140]}")
                 if "VV" not in t and "DATA" in t:
                     return (False, f"{where}: the integral is {t[:140]}, which does not contain the geometry's voxel volume: depth / porosity folded into it by the weighted geometries are dropped")
-                return None
-    return (True, "")
+                undecided = True   # no named contradiction on this path: the other paths are still looked at
+    return None if undecided else (True, "")
 
 
 def _rule_c_normalize(ctx, R, m):
